@@ -88,7 +88,7 @@ def main(argv):
         seedfile = os.path.join(ROOT, 'replays', '%s-bounded-search.json' % prop)
         json.dump({'property': prop, 'obligation': 'bounded-native-search', 'inputs': None}, open(seedfile, 'w'))
         benv = dict(env); benv['VERIF_BOUNDED_BUDGET'] = '60' if tier == 'thorough' else '20'
-        bounded_fut = bex.submit(native_replay, prop, None, {}, seedfile, benv, 600)
+        bounded_fut = bex.submit(native_replay, prop, None, {}, seedfile, benv, 7200 if tier == 'thorough' else 1500)
     results = []
     jobs = int(os.environ.get('PYVC_JOBS', '16'))
     nsh = max(1, min(6, jobs // max(1, len(units))))
